@@ -700,7 +700,79 @@ def sentinel_loops(fnode):
 # ---------------------------------------------------------------------------------------------
 # small canonicalisations
 
-def unroll_const_loops(fnode, consts=None, limit=8):
+def class_table_nodes(module, scope=''):
+    """resolver for unroll_const_loops: `NAME`, `Class.NAME`, `self.NAME`, `cls.NAME` -> the literal tuple/list the name is bound to
+    (bound exactly once in its class body / at module level, and never stored to through an attribute anywhere in the module)"""
+    stored = {n.attr for n in ast.walk(module.tree) if isinstance(n, ast.Attribute) and isinstance(n.ctx, (ast.Store, ast.Del))}
+
+    def bound_once(body, name):
+        k = 0
+        for st in body:
+            for n in ast.walk(st) if not isinstance(st, (ast.FunctionDef, ast.AsyncFunctionDef, ast.ClassDef)) else ():
+                if isinstance(n, ast.Name) and n.id == name and isinstance(n.ctx, ast.Store):
+                    k += 1
+        return k == 1
+
+    def look(text):
+        parts = text.split('.')
+        if len(parts) == 1:
+            n = module.const_nodes.get('', {}).get(text)
+            return n if n is not None and bound_once(module.tree.body, text) else None
+        if len(parts) == 2 and ((parts[0] in ('self', 'cls') and scope) or parts[0] in module.classes):
+            cname = scope if parts[0] in ('self', 'cls') else parts[0]
+            n, c = module.class_const_node(cname, parts[1])
+            if n is not None and parts[1] not in stored and bound_once(module.classes[c].body, parts[1]):
+                return n
+        return None
+    return look
+
+
+def iter_skip_to_slice(fnode):
+    """`it = iter(E); next(it, d); ...k times...; for v in it: BODY` with E the list a str method returns (split, splitlines, ...)
+    and `it` used nowhere else is `for v in E[k:]: BODY` -- taking k items off the iterator of a list, each with a default so that
+    an exhausted iterator is no error, leaves the items from position k on."""
+    fn = clone(fnode)
+    uses = {}
+    for n in ast.walk(fn):
+        if isinstance(n, ast.Name):
+            uses[n.id] = uses.get(n.id, 0) + 1
+
+    def rewrite(body):
+        out = []
+        i = 0
+        while i < len(body):
+            st = body[i]
+            for fld in ('body', 'orelse', 'finalbody'):
+                if isinstance(getattr(st, fld, None), list) and not isinstance(st, ast.ClassDef):
+                    setattr(st, fld, rewrite(getattr(st, fld)))
+            for h in getattr(st, 'handlers', []) or []:
+                h.body = rewrite(h.body)
+            if isinstance(st, ast.Assign) and len(st.targets) == 1 and isinstance(st.targets[0], ast.Name) and isinstance(st.value, ast.Call) \
+                    and norm(st.value.func) == 'iter' and len(st.value.args) == 1 and not st.value.keywords:
+                name, e = st.targets[0].id, st.value.args[0]
+                is_list = isinstance(e, ast.Call) and isinstance(e.func, ast.Attribute) and e.func.attr in ('split', 'splitlines', 'rsplit')
+                j, k = i + 1, 0
+                while j < len(body) and isinstance(body[j], ast.Expr) and isinstance(body[j].value, ast.Call) and norm(body[j].value.func) == 'next' \
+                        and len(body[j].value.args) == 2 and norm(body[j].value.args[0]) == name and isinstance(body[j].value.args[1], ast.Constant):
+                    j += 1
+                    k += 1
+                if is_list and j < len(body) and isinstance(body[j], ast.For) and norm(body[j].iter) == name and uses.get(name) == k + 2:
+                    loop = body[j]
+                    for fld in ('body', 'orelse'):
+                        setattr(loop, fld, rewrite(getattr(loop, fld)))
+                    loop.iter = ast.copy_location(ast.Subscript(value=e, slice=ast.Slice(lower=ast.Constant(value=k), upper=None, step=None), ctx=ast.Load()), e) if k else e
+                    out.append(loop)
+                    i = j + 1
+                    continue
+            out.append(st)
+            i += 1
+        return out
+    fn.body = rewrite(fn.body)
+    ast.fix_missing_locations(fn)
+    return fn
+
+
+def unroll_const_loops(fnode, consts=None, limit=8, table_nodes=None):
     """`for x in (c1, c2, ...): BODY` over a literal tuple/list of constants (no break/continue/else) becomes
     BODY[x:=c1]; BODY[x:=c2]; ...   and   getattr(obj, 'name')  becomes  obj.name"""
     fn = clone(fnode)
@@ -769,6 +841,11 @@ def unroll_const_loops(fnode, consts=None, limit=8):
     def items_of(it):
         if isinstance(it, ast.Name) and it.id in tables:
             it = tables[it.id]
+        elif table_nodes is not None and isinstance(it, (ast.Name, ast.Attribute)):
+            # a table bound once at class / module level (the caller resolves the name to its defining expression)
+            tn = table_nodes(norm(it))
+            if isinstance(tn, (ast.Tuple, ast.List)):
+                it = tn
         if isinstance(it, (ast.Tuple, ast.List)) and all(isinstance(e, ast.Constant) for e in it.elts) and len(it.elts) <= limit:
             return [e for e in it.elts]
         if isinstance(it, (ast.Tuple, ast.List)) and it.elts and all(plain(e) for e in it.elts) and len(it.elts) <= limit:
